@@ -1064,6 +1064,142 @@ theorem manager_only_histories_all_answer (ops : List Op)
   · cases hq
   · rcases h o ho with hk | hk <;> simp [touches, hk] at h1
 
+/-! ## 3b. plugin names: any single path element, whatever characters it is made of
+
+`Install`, `Get`, `List` and `Uninstall` accept the same names (`validatePluginName`): not empty,
+not `.` / `..`, no separator, no NUL. Nothing else about the characters of a name matters to
+any of the four - a name one of them filtered or normalised (`file.IsValidFileName` in `List`:
+seeded C20-21) would install and answer but not be listed / fetched / removed. -/
+
+/-- the characters `validatePluginName` (and, through `.` and `..`, the dot) looks at -/
+def plainChar (c : Char) : Bool := !(c == '/' || c == '\\' || c == '\x00' || c == '.')
+
+/-- `validatePluginName`, spelled out -/
+theorem validName_iff (n : Text) :
+    validName n = true ↔
+      n ≠ [] ∧ n ≠ ['.'] ∧ n ≠ ['.', '.'] ∧ ∀ c ∈ n, c ≠ '/' ∧ c ≠ '\\' ∧ c ≠ '\x00' := by
+  unfold validName
+  simp only [Bool.not_eq_true', Bool.or_eq_false_iff, List.isEmpty_eq_false_iff, beq_eq_false_iff_ne, ne_eq,
+    List.any_eq_false, Bool.or_eq_true, beq_iff_eq, not_or]
+  constructor
+  · rintro ⟨⟨⟨h1, h2⟩, h3⟩, h4⟩
+    exact ⟨h1, h2, h3, fun c hc => ⟨(h4 c hc).1.1, (h4 c hc).1.2, (h4 c hc).2⟩⟩
+  · rintro ⟨h1, h2, h3, h4⟩
+    exact ⟨⟨⟨h1, h2⟩, h3⟩, fun c hc => ⟨⟨(h4 c hc).1, (h4 c hc).2.1⟩, (h4 c hc).2.2⟩⟩
+
+/-- every non-empty name without separator, NUL and dot is a plugin name: `azure+kv`,
+`my plugin`, `kms@eu-west-1`, `schlüssel`, `hsm(v2)`, `x~1`, `Foo`, `-rf`, `notation-foo`, ... -/
+theorem plain_name_valid (n : Text) (hne : n ≠ []) (hc : ∀ c ∈ n, plainChar c = true) : validName n = true := by
+  have hc' : ∀ c ∈ n, c ≠ '/' ∧ c ≠ '\\' ∧ c ≠ '\x00' ∧ c ≠ '.' := by
+    intro c hm
+    have := hc c hm
+    simp only [plainChar, Bool.not_eq_true', Bool.or_eq_false_iff, beq_eq_false_iff_ne, ne_eq] at this
+    exact ⟨this.1.1.1, this.1.1.2, this.1.2, this.2⟩
+  rw [validName_iff]
+  refine ⟨hne, ?_, ?_, fun c hm => ⟨(hc' c hm).1, (hc' c hm).2.1, (hc' c hm).2.2.1⟩⟩
+  · intro h; subst h; exact (hc' '.' (by simp)).2.2.2 rfl
+  · intro h; subst h; exact (hc' '.' (by simp)).2.2.2 rfl
+
+/-- **name_alphabet_irrelevant**: whether a name is accepted does not depend on which plain
+characters it is made of - replace every character that is not a separator, NUL or a dot by
+any other such character (letters by `+`, ` `, `@`, `ü`, upper case by lower case, ...): the
+verdict of `validatePluginName` is the same -/
+theorem name_alphabet_irrelevant (σ : Char → Char)
+    (hplain : ∀ c, plainChar c = true → plainChar (σ c) = true)
+    (hfix : ∀ c, plainChar c = false → σ c = c) (n : Text) :
+    validName (n.map σ) = validName n := by
+  have hp : ∀ c, plainChar (σ c) = plainChar c := by
+    intro c
+    cases h : plainChar c with
+    | true => exact hplain c h
+    | false => rw [hfix c h]; exact h
+  have key : ∀ (c d : Char), plainChar d = false → (σ c = d ↔ c = d) := by
+    intro c d hd
+    constructor
+    · intro h
+      have h1 : plainChar c = false := by rw [← hp c, h]; exact hd
+      rw [hfix c h1] at h; exact h
+    · intro h; subst h; exact hfix c hd
+  have hdot := fun c => key c '.' (by decide)
+  have hsl := fun c => key c '/' (by decide)
+  have hbs := fun c => key c '\\' (by decide)
+  have hnul := fun c => key c '\x00' (by decide)
+  have hany : (n.map σ).any (fun c => c == '/' || c == '\\' || c == '\x00') =
+      n.any (fun c => c == '/' || c == '\\' || c == '\x00') := by
+    rw [List.any_map]
+    apply List.any_congr rfl
+    intro c
+    simp only [Function.comp]
+    rw [Bool.eq_iff_iff]
+    simp only [Bool.or_eq_true, beq_iff_eq, hsl, hbs, hnul]
+  have h1 : (n.map σ == ['.']) = (n == ['.']) := by
+    rw [Bool.eq_iff_iff]
+    simp only [beq_iff_eq]
+    match n with
+    | [] => simp
+    | [c] => simp [hdot]
+    | _ :: _ :: _ => simp
+  have h2 : (n.map σ == ['.', '.']) = (n == ['.', '.']) := by
+    rw [Bool.eq_iff_iff]
+    simp only [beq_iff_eq]
+    match n with
+    | [] => simp
+    | [c] => simp
+    | [c, d] => simp [hdot]
+    | _ :: _ :: _ :: _ => simp
+  unfold validName
+  rw [hany, h1, h2]
+  simp
+
+/-- `List` reports every directory of the plugin root by its name, whatever the name looks like -/
+theorem listed_is_every_directory (st : State) (op : Op) :
+    (stepObs st op).listed = (step st op).2.map Plugin.name := by
+  simp [stepObs, observe, pobs, List.map_map, Function.comp_def]
+
+theorem findBy_isSome_iff_name_mem (st : State) (n : Text) :
+    (findBy Plugin.name n st).isSome = true ↔ n ∈ st.map Plugin.name := by
+  unfold findBy
+  rw [List.find?_isSome]
+  simp only [beq_iff_eq, List.mem_map]
+
+/-- **list_get_uninstall_agree_on_every_name**: for EVERY single-path-element name (no other
+condition on its characters) the sites agree: `Uninstall(n)` succeeds iff `List` reports `n`,
+fails with `os.ErrNotExist` otherwise, and what `Get(n)` finds is in a directory `List` reports -/
+theorem list_get_uninstall_agree_on_every_name (st : State) (n : Text) (hv : validName n = true) :
+    ((uninstall st n).1.err = .ok ↔ n ∈ (observe st).map (·.name)) ∧
+    ((uninstall st n).1.err ≠ .ok → (uninstall st n).1.err = .notExist) ∧
+    ((getExe st n).isSome = true → n ∈ (observe st).map (·.name)) := by
+  have hobs : (observe st).map (·.name) = st.map Plugin.name := by
+    simp [observe, pobs, List.map_map, Function.comp_def]
+  rw [hobs, ← findBy_isSome_iff_name_mem]
+  refine ⟨?_, ?_, ?_⟩
+  · cases h : (findBy Plugin.name n st).isSome <;> simp [uninstall, hv, h]
+  · cases h : (findBy Plugin.name n st).isSome <;> simp [uninstall, hv, h]
+  · unfold getExe
+    simp only [hv, Bool.not_true, Bool.false_eq_true, if_false]
+    cases h : findBy Plugin.name n st <;> simp
+
+/-- **odd_name_lifecycle**: a usable source whose executable is `notation-<n>` for a name `n`
+made of plain characters only - ANY of them - installs on a root without that plugin, is then
+listed, answers with the new version when fetched, and is removed by `Uninstall(n)` -/
+theorem odd_name_lifecycle (st : State) (op : Op) (loc : Located) (v : Text)
+    (hl : specLocate op = some loc) (hne : loc.name ≠ []) (hc : ∀ c ∈ loc.name, plainChar c = true)
+    (hb : blocked op loc.name = false) (hm : metadata loc.name loc.exe = some v)
+    (hp : getExe st loc.name = none) :
+    (install1 st op).1.err = .ok ∧
+    loc.name ∈ (observe (install1 st op).2).map (·.name) ∧
+    (getExe (install1 st op).2 loc.name).bind (metadata loc.name) = some v ∧
+    (uninstall (install1 st op).2 loc.name).1.err = .ok ∧
+    findBy Plugin.name loc.name (uninstall (install1 st op).2 loc.name).2 = none := by
+  have hv := plain_name_valid loc.name hne hc
+  have hn : specNew op = some ⟨loc.name, v, copied op loc⟩ := by
+    simp [specNew, newOf, hl, hv, hb, hm]
+  have hok := absent_or_stale_installs st op _ hn hp
+  obtain ⟨nw, hn', h1, h2, h3, h4, _⟩ := then_listable_fetchable_uninstallable st op hok
+  rw [hn] at hn'
+  cases hn'
+  exact ⟨hok, h1, h2, h3, h4⟩
+
 /-! ## 4. non-vacuity -/
 
 section examples
@@ -1247,6 +1383,29 @@ example : Holds (seq [instFile "1.1.0" 1, instFile "1.0.0" 2])
 example : Holds (seq [instFile "1.1.0" 1, instFile "1.0.0" 2])
     ⟨[⟨.ok, none, some (t "1.1.0"), [⟨t "foo", [fo "notation-foo" 1 true], some (t "1.1.0")⟩], [t "foo"]⟩,
       ⟨.downgrade, none, none, [], []⟩], false, false, none⟩ = false := by decide
+
+/-- plugin names outside `[a-zA-Z0-9_.-]` (seeded C20-21: `List` filtered them with
+`file.IsValidFileName`): the model installs, lists, refuses the downgrade, uninstalls -/
+private def instNamed (n v : String) (cid : Nat) (ow : Bool := false) : Op :=
+  ⟨.install, [], ow, false, t ("notation-" ++ n), [], false,
+    [⟨.file, t ("notation-" ++ n), true, false, cid, some ⟨t n, t v, true, false, 0⟩, []⟩], "background"⟩
+private def oddName : Input :=
+  seq [instNamed "azure+kv" "2.0.0" 1, instNamed "azure+kv" "1.0.0" 2, instNamed "my plugin" "1.0.0" 3,
+       ⟨.uninstall, t "azure+kv", false, false, [], [], false, [], "background"⟩]
+example : (run oddName).steps.map (fun s => (s.err, s.listed)) =
+    [(.ok, [t "azure+kv"]), (.downgrade, [t "azure+kv"]), (.ok, [t "azure+kv", t "my plugin"]), (.ok, [t "my plugin"])] := by
+  decide
+example : Holds oddName (run oddName) = true := by decide
+example : (["azure+kv", "my plugin", "kms@eu-west-1", "schlüssel", "hsm(v2)", "x~1", "Foo", "-rf", "notation-foo", ".hidden", "...",
+    ".", "..", "", "a/b", "a\\b"].map (fun s => validName (t s))) =
+    [true, true, true, true, true, true, true, true, true, true, true, false, false, false, false, false] := by decide
+/-- what the seeded change did: everything as the model says, but `List` does not report the
+plugin. `Holds` is **false** of that observation, by the listing clause alone. -/
+private def oddNameUnlisted : Obs :=
+  let o := run oddName
+  { o with steps := o.steps.map fun s => { s with listed := s.listed.filter (fun n => n.all (fun c => c.isAlphanum || c == '.' || c == '_' || c == '-')) } }
+example : Holds oddName oddNameUnlisted = false := by decide
+example : (clauses oddName oddNameUnlisted).failed = ["listed_is_the_root_listing"] := by decide
 
 end examples
 
